@@ -298,3 +298,40 @@ func VP_C13_block_entities() {
 	vp.Assert(err == nil && string(w2.Bytes()) == string(w.Bytes()), "the chunk that was read writes the same bytes")
 	vp.Cover("end")
 }
+
+// the counter step from the extreme consistent states of a full-size section:
+// completely solid (4096 non-air blocks, count 4096), completely air (count 0)
+// and one short of each; the replaced and the new state arbitrary.
+func VP_C13_blockcount_extremes() {
+	fill := BlocksState(1) // stone
+	solid := vp.Choice(2) == 1
+	def := BlocksState(0)
+	if solid {
+		def = fill
+	}
+	s := &Section{States: NewStatesPaletteContainer(4096, def), Biomes: NewBiomesPaletteContainer(64, 0)}
+	if solid {
+		s.BlockCount = 4096
+	}
+	if vp.Choice(2) == 1 { // one position differs: 4095 or 1 blocks
+		if solid {
+			s.SetBlock(4095, 0)
+		} else {
+			s.SetBlock(4095, fill)
+		}
+	}
+	before := s.BlockCount
+	i, v := []int{0, 17, 4095}[vp.Choice(3)], vpRegState()
+	old := s.GetBlock(i)
+	s.SetBlock(i, v)
+	d := int16(0)
+	if !block.IsAir(v) {
+		d++
+	}
+	if !block.IsAir(old) {
+		d--
+	}
+	vp.Assert(s.BlockCount == before+d, "SetBlock changes the block count by [new non-air] - [old non-air]")
+	vp.Assert(s.GetBlock(i) == v, "SetBlock stores the state")
+	vp.Cover("end")
+}
